@@ -15,6 +15,18 @@ claimed={
   text='Reference-model runtime monitor over generated type graphs (<=6 user types; @T, @A|@B, {type:"@T"}, or-lists of names/built-ins/inline rule-sets, nullable references, allOf chains and diamonds, all additionalProperties modes, key shortcuts, regex and enum types, legal recursion): union/inheritance semantics are computed on the abstract model and compared with Validate for conforming, near-miss and unrelated documents; plus a real-vs-real differential (a position referencing @T accepts what stand-alone T accepts). Held on the executions observed.',
   note='Cells the statements do not decide are Unspecified and not compared (listed in the evidence assumptions). Graphs the generator believes legal but Check rejects are skipped and counted.',
   technique='reference-model monitor over generated type graphs + reference-vs-standalone differential', ref='7 (C03)'),
+ 'C04': dict(category='exploration',
+  text='Two runtime monitors relating Check and Validate: forward - every Check-accepted plain-JSON schema (scalar rule sets, rule-free shapes, all-features generator) must validate its own example text (same and fresh schema object); converse - one violation planted at a known node (value outside bound/length/pattern/enum/format, literal accepted by no or/enum/type alternative, item count outside minItems/maxItems, declared type different from the example kind), Check must reject AT the byte offset of that node taken from the renderer position map.',
+  note='Planted values are chosen by the C02 reference oracle; positions come from the renderer (start of the literal, "[" for item counts).',
+  technique='real-vs-real relation monitor (Check => Validate(example)) + fault-planting monitor with position oracle', ref='7 (C04)'),
+ 'C13': dict(category='exploration',
+  text='Metamorphic real-vs-real monitor: each generated schema (type graphs, all features) is rendered canonically, in each of 12 single meaning-preserving rewrites and in random per-site compositions; Check verdict, AST with comments set aside (rules as a set under rule reordering) and all validation verdicts must coincide; each document value is re-spelled (whitespace, member order, escape sequences) and verdicts must coincide. 3.4e5 (quick) / 2.7e7 (thorough) comparisons.',
+  note='Blind to changes that break all spellings alike (absolute oracles of C01-C04/C08 cover those); trusts the renderer to emit only legal spellings.',
+  technique='metamorphic monitor across surface spellings', ref='7 (C13)'),
+ 'C15': dict(category='exploration',
+  text='Runtime monitor on every Check-accepted generated schema (type graphs with or / key shortcuts / allOf / legal recursion, optional recursion of depth 1..3 with the recursive member first/middle/last, keys with quotes/backslashes/control characters/non-ASCII, all-features generator): Example() must be well-formed JSON (encoding/json.Valid), be accepted by Validate on the same and on a fresh schema object, and for plain-JSON schemas be byte-equal to the example with annotations and whitespace removed; results copied at return time.',
+  note='One known finding (required property inside a legal cycle is omitted at the recursion cut-off) with a class predicate decided on the model; schemas with ambiguous key shortcuts are Unspecified for the round trip.',
+  technique='round-trip monitor (Example -> JSON validity -> Validate) + reference example for plain-JSON schemas', ref='7 (C15)'),
  'C08': dict(category='exploration',
   text='Exhaustive-by-construction runtime monitor of Check: 10 node kinds x 3 positions x every subset (size <=3 quick, <=4 thorough) of the rule vocabulary plus an unknown name x parameter variants x ALL permutations of the written order (1.3e6 Check calls quick); order-independence is judged real-vs-real, the verdict against an applicability-matrix oracle written from the statement; plus an accept-biased family over applicable rules and every rule written twice.',
   note='Trusts the matrix oracle (internal/model/checkoracle.go); enum on containers and enum+const are Unspecified; error codes among rejecting permutations are recorded, not judged.',
